@@ -336,7 +336,9 @@ func buildLeaves() []*Leaf {
 				}
 				return strings.Join(p, ",")
 			},
-			Gen: func(r *fw.Rand, uniq int) reflect.Value { return rv([]int32{int32(uniq), math.MinInt32, math.MaxInt32}) }},
+			Gen: func(r *fw.Rand, uniq int) reflect.Value {
+				return rv([]int32{int32(uniq), math.MinInt32, math.MaxInt32})
+			}},
 		{Name: "[]int64", Type: reflect.TypeOf([]int64{}), Caps: CapEnv | CapFlag | CapRef,
 			Text: func(v reflect.Value) string {
 				p := []string{}
@@ -345,7 +347,9 @@ func buildLeaves() []*Leaf {
 				}
 				return strings.Join(p, ",")
 			},
-			Gen: func(r *fw.Rand, uniq int) reflect.Value { return rv([]int64{int64(uniq), math.MinInt64, math.MaxInt64}) }},
+			Gen: func(r *fw.Rand, uniq int) reflect.Value {
+				return rv([]int64{int64(uniq), math.MinInt64, math.MaxInt64})
+			}},
 		{Name: "[]uint32", Type: reflect.TypeOf([]uint32{}), Caps: CapEnv | CapFlag | CapRef,
 			Text: func(v reflect.Value) string {
 				p := []string{}
